@@ -339,18 +339,15 @@ class Waiting(State):
             # will carry out whatever interrupt action is pending at that point
             return
 
-        # This will cause the future in execute() to raise the exception
-        self._waiting_future.set_exception(reason)
+        # This will cause the future in execute() to raise the exception.  The wait is re-armed right away so that
+        # the state can be re-executed and a resume arriving before the interrupted step has been dealt with is
+        # delivered to the new future instead of being lost
+        waiting_future, self._waiting_future = self._waiting_future, futures.Future()
+        waiting_future.set_exception(reason)
 
     async def execute(self) -> State:  # type: ignore
-        try:
-            result = await self._waiting_future
-        except Interruption:
-            # Deal with the interruption (by raising) but make sure our internal
-            # state is back to how it was before the interruption so that we can be
-            # re-executed
-            self._waiting_future = futures.Future()
-            raise
+        # An interruption is dealt with by the caller (by raising), see ``interrupt``
+        result = await self._waiting_future
 
         if result == NULL:
             next_state = self.create_state(ProcessState.RUNNING, self.done_callback)
